@@ -1,7 +1,7 @@
 (** C04 — unresolvable dependency cycles are reported; delay-resolved cycles run.
     Model: FV.Sched.  Only statements here; proofs in FVP.Sched_proofs. *)
 From Coq Require Import List ZArith Bool.
-From FV Require Import Base Sched.
+From FV Require Import Base Sched SchedSparse C04Mix.   (* C04Mix: the correspondence interface of this property *)
 From FVP Require Import Adapters_proofs Sched_proofs Confluence_proofs Termination_proofs ConnectPhase_proofs.
 Import ListNotations.
 Open Scope Z_scope.
